@@ -164,6 +164,26 @@ class H:
                 await sim.pause(a[1], a[2])
             elif op == "td":
                 self.td(a[1])
+            elif op == "dup_res":
+                # a publication that is rejected (the name is taken) and handled: the
+                # teardown callback that came with it was never registered
+                from asphalt.core import ResourceConflict, add_resource
+
+                rid = a[1]
+
+                def ok_cb(rid: str = rid) -> None:
+                    sim.log("td_run", td=rid)
+                    sim.log("td_done", td=rid, how="done")
+
+                def rogue_cb(rid: str = rid) -> None:
+                    sim.log("td_run", td=rid + "_rejected")
+
+                add_resource(object(), rid, teardown_callback=ok_cb)
+                sim.log("td_reg", td=rid)
+                try:
+                    add_resource(object(), rid, teardown_callback=rogue_cb)
+                except ResourceConflict:
+                    pass
             elif op == "td_again":
                 # the very same callable once more (e.g. a shared flush() registered by two
                 # components): two registrations, two calls, each in its own LIFO slot
@@ -243,9 +263,15 @@ class H:
         sim = self.sim
         name = spec["name"]
 
-        async def body() -> None:
+        async def run_body(task_status: Any) -> None:
             sim.log("svc_start", svc=name)
             try:
+                if task_status is not None:
+                    # a start handshake that takes a while: start_service_task() returns -
+                    # and the task's finalizer takes its place in the teardown order - only
+                    # once started() has been called
+                    await sim.pause(0, spec["handshake"])
+                    task_status.started()
                 if spec.get("crash_at") is not None:
                     await anyio.sleep(spec["crash_at"])
                     e = (SimError if spec.get("cls", "SimError") == "SimError" else SimFatal)(f"crash {name}")
@@ -257,6 +283,17 @@ class H:
             finally:
                 sim.log("svc_end", svc=name)
 
+        if spec.get("handshake") is not None:
+
+            async def body(*, task_status: Any) -> None:
+                await run_body(task_status)
+
+        else:
+
+            async def body() -> None:  # type: ignore[misc]
+                await run_body(None)
+
+        sim.log("svc_call", svc=name)
         action = spec.get("action")
         if action in ("araise", "sraise"):
             # a teardown action that fails (when called, or only when awaited): the task is
@@ -497,6 +534,25 @@ def oracle(sim: Sim, plan: dict) -> list[dict]:
             f"teardown callbacks {unfinished} were called but what they returned was never awaited to the end "
             f"before run_application ended (ending: {ending})",
         )
+    rogue = [r[5]["td"] for r in tr if r[4] == "td_run" and str(r[5]["td"]).endswith("_rejected")]
+    if rogue:
+        v("C15.teardown", f"rejected_ran@{ending}", f"teardown callbacks {rogue} of add_resource() calls that were rejected ran (ending: {ending})")
+    # a callback registered while another component's start_service_task() was still in its
+    # start handshake is older than that task's finalizer: it runs only after the task ended
+    for sc in [r for r in tr if r[4] == "svc_call"]:
+        sr = next((r for r in tr if r[4] == "svc_reg" and r[5]["svc"] == sc[5]["svc"]), None)
+        se = next((r for r in tr if r[4] == "svc_end" and r[5]["svc"] == sc[5]["svc"]), None)
+        if sr is None or se is None:
+            continue
+        for tdr in [r for r in tr if r[4] == "td_reg" and sc[0] < r[0] < sr[0] and regs.count(r[5]["td"]) == 1]:
+            run_ = next((r for r in tr if r[4] == "td_run" and r[5]["td"] == tdr[5]["td"] and r[0] > tdr[0]), None)
+            if run_ is not None and run_[0] < se[0] and ending in ("run", "signal_after", "signal_ambiguous"):
+                v(
+                    "C15.teardown",
+                    f"order@{ending}",
+                    f"teardown callback {tdr[5]['td']} was registered before service task {sc[5]['svc']} had finished starting "
+                    f"(its finalizer is younger) but ran while that task was still alive (ending: {ending})",
+                )
     svcs = [r[5]["svc"] for r in tr if r[4] == "svc_start"]
     ended = [r[5]["svc"] for r in tr if r[4] == "svc_end" and r[0] < end[0]]
     if sorted(svcs) != sorted(ended):
@@ -619,7 +675,10 @@ def gen(rng: random.Random, tier: str, prop: str) -> dict:
         out: list = []
         for _ in range(n):
             r = rng.random()
-            if r < 0.35:
+            if r < 0.04:
+                ntd[0] += 1
+                out.append(["dup_res", f"cb{ntd[0]}"])
+            elif r < 0.35:
                 out.append(rpause(rng, 0.3))
             elif r < 0.8:
                 ntd[0] += 1
@@ -644,6 +703,8 @@ def gen(rng: random.Random, tier: str, prop: str) -> dict:
                 sv: dict[str, Any] = {"name": f"s{nsvc[0]}"}
                 if rng.random() < 0.3:
                     sv["action"] = rng.choice(("araise", "sraise"))
+                if rng.random() < 0.3:
+                    sv["handshake"] = rng.choice((0.25, 0.5, 1.0))
                 out.append(["svc", sv])
         return out
 
